@@ -55,6 +55,7 @@ var c20Pos = map[string]c20Pt{
 var reRoam = regexp.MustCompile(`"(nearby|faraway)":\{"key":"[^"]*","id":"([^"]*)".*?"meters":([0-9.eE+-]+)`)
 
 type c20Config struct {
+	RoamKey string   `json:"roam_key"`
 	Neigh   []string `json:"neighbours"`
 	Pattern string   `json:"pattern"`
 	NoDwell bool     `json:"nodwell"`
@@ -62,7 +63,7 @@ type c20Config struct {
 }
 
 func checkC20(job *Job, res *Result) {
-	res.Rule = "SEQ over configurations: 1-2 (thorough 1-3) neighbours out of 7 placements x id pattern {*, exact, n*, non-matching, [nx]?, ?B} x NODWELL x all move histories of length 1-2 (thorough 1-3) over {T, T2 (200 m away), Far}; receivers channel + live + webhook; expected nearby/faraway sets and metres from haversine distances; distinct = distinct (configuration, expected message list)"
+	res.Rule = "SEQ over configurations: 1-2 (thorough 1-3) neighbours out of 7 placements x id pattern {*, exact, n*, non-matching, [nx]?, ?B} x NODWELL x all move histories of length 1-2 (thorough 1-3) over {T, T2 (200 m away), Far, and moves preceded by DROP+re-add / RENAME cycle / delete-all+mirror of the roamed collection}, repeated positions included, roamed key = fenced key or a separate key; receivers channel + live + webhook; expected nearby/faraway sets and metres from haversine distances; distinct = distinct (configuration, expected message list)"
 	res.Assumptions = append(res.Assumptions, "metres are compared with a relative tolerance of 1e-6 + 2 mm (sphere of radius 6371 km)")
 	names := []string{"nA", "nB", "nC", "nD", "nE", "nF", "xG"}
 	maxN, maxMoves := 2, 2
@@ -92,9 +93,9 @@ func checkC20(job *Job, res *Result) {
 		if len(cur) == maxMoves {
 			return
 		}
-		for _, p := range []string{"T", "T2", "Far"} {
-			if len(cur) > 0 && cur[len(cur)-1] == p {
-				continue
+		for _, p := range []string{"T", "T2", "Far", "T+drop-readd", "T2+rename-cycle", "T+swap"} {
+			if strings.Contains(p, "+") && len(cur) == 0 {
+				continue // collection events only after the fence has fired once
 			}
 			gen(append(cur, p))
 		}
@@ -105,7 +106,14 @@ func checkC20(job *Job, res *Result) {
 		for _, pat := range []string{"*", "nB", "n*", "zz*", "[nx]?", "?B"} {
 			for _, nd := range []bool{false, true} {
 				for _, h := range hists {
-					cfgs = append(cfgs, c20Config{ns, pat, nd, h})
+					events := strings.Contains(strings.Join(h, " "), "+")
+					if !events {
+						cfgs = append(cfgs, c20Config{"fleet", ns, pat, nd, h})
+					}
+					if events || len(ns) == 1 {
+						// the roamed collection is a different key (collection events only make sense there)
+						cfgs = append(cfgs, c20Config{"others", ns, pat, nd, h})
+					}
 				}
 			}
 		}
@@ -131,20 +139,28 @@ func checkC20(job *Job, res *Result) {
 		}
 		cfg := cfg
 		viol := func(sig, detail string) {
-			res.Violate("C20/"+sig, fmt.Sprintf("%s  [neighbours %v, ROAM pattern %q, nodwell=%v, moves %v]", detail, cfg.Neigh, cfg.Pattern, cfg.NoDwell, cfg.Moves), cfg)
+			res.Violate("C20/"+sig, fmt.Sprintf("%s  [roamed key %s, neighbours %v, ROAM pattern %q, nodwell=%v, moves %v]", detail, cfg.RoamKey, cfg.Neigh, cfg.Pattern, cfg.NoDwell, cfg.Moves), cfg)
 		}
 		x := runExec(job, freezeAllBut("manager"), func(x *Exec) {
 			in := x.Start("L", x.dir+"/L", 9001, nil)
 			c := x.Dial(in.Addr)
+			rkey := cfg.RoamKey
+			// current neighbour positions (collection events may move them)
+			pos := map[string]c20Pt{}
 			for _, n := range cfg.Neigh {
-				p := c20Neigh[n]
-				c.Do("SET", "fleet", n, "POINT", fnum(p.Lat), fnum(p.Lon))
+				pos[n] = c20Neigh[n]
 			}
+			putAll := func(key string) {
+				for _, n := range cfg.Neigh {
+					c.Do("SET", key, n, "POINT", fnum(pos[n].Lat), fnum(pos[n].Lon))
+				}
+			}
+			putAll(rkey)
 			fence := []string{"NEARBY", "fleet", "MATCH", "m", "FENCE"}
 			if cfg.NoDwell {
 				fence = append(fence, "NODWELL")
 			}
-			fence = append(fence, "ROAM", "fleet", cfg.Pattern, "1000")
+			fence = append(fence, "ROAM", rkey, cfg.Pattern, "1000")
 			if r := c.Do(append([]string{"SETCHAN", "rch"}, fence...)...); r.IsErr() {
 				viol("setchan", r.String())
 				return
@@ -160,6 +176,33 @@ func checkC20(job *Job, res *Result) {
 			hookSeen := len(ep.OK())
 			var prev *c20Pt
 			for mi, mv := range cfg.Moves {
+				if i := strings.Index(mv, "+"); i >= 0 {
+					// something happens to the roamed collection between two moves; what was
+					// near before is judged on the positions at the time of the previous move
+					switch mv[i+1:] {
+					case "drop-readd":
+						c.Do("DROP", rkey)
+						putAll(rkey)
+					case "rename-cycle":
+						c.Do("RENAME", rkey, "tmpkey")
+						c.Do("RENAME", "tmpkey", rkey)
+					case "swap":
+						// every neighbour is deleted (the collection vanishes) and comes back mirrored to the west
+						for _, n := range cfg.Neigh {
+							c.Do("DEL", rkey, n)
+						}
+						for _, n := range cfg.Neigh {
+							q := pos[n]
+							pos[n] = c20Pt{q.Lat, -q.Lon}
+						}
+						putAll(rkey)
+					}
+					vsched.Quiesce()
+					recvPayloads(sub)
+					recvPayloads(live)
+					hookSeen = len(ep.OK())
+					mv = mv[:i]
+				}
 				p := c20Pos[mv]
 				c.Do("SET", "fleet", "m", "POINT", fnum(p.Lat), fnum(p.Lon))
 				vsched.Quiesce()
@@ -173,10 +216,12 @@ func checkC20(job *Job, res *Result) {
 					if !mGlob(cfg.Pattern, n) {
 						continue
 					}
-					q := c20Neigh[n]
+					q := pos[n]
 					dNew := hav(p.Lat, p.Lon, q.Lat, q.Lon)
 					wasIn := false
 					if prev != nil {
+						// "within the radius before" is evaluated as the server does: the
+						// previous position of the moving object against the neighbour's CURRENT position
 						wasIn = hav(prev.Lat, prev.Lon, q.Lat, q.Lon) <= 1000
 					}
 					if dNew <= 1000 {
@@ -232,7 +277,7 @@ func checkC20(job *Job, res *Result) {
 								found = found || (wv.kind == g.kind && wv.id == g.id)
 							}
 							if !found {
-								q := c20Neigh[g.id]
+								q := pos[g.id]
 								d := hav(p.Lat, p.Lon, q.Lat, q.Lon)
 								switch {
 								case g.kind == "nearby" && d > 1000:
